@@ -1,6 +1,6 @@
 //! C04 conformance: which handler of a REAL humphrey `App` answers a request, against spec/routing/Routing.tla.
 //!
-//!   routing replay [--variants one|all] [--workers N]
+//!   routing replay [--variants one|all|mixed] [--workers N]
 //!        stdin: {"reqs":[{kind,hostp,host,target,..}..]} then one line per app {"app":{hosts,def},"exp":[[sub,idx,..]..]}
 //!        (vectors printed by TLC, Gen_Routing_*.cfg). Every app is built through the public registration API
 //!        (App::with_host / with_route / with_websocket_route, SubApp::with_*), run with App::run on a loopback
